@@ -1,6 +1,6 @@
 (* C03 — shape of the generated cases and the two executable verdicts. NO proofs. *)
 From VLib Require Import CaseLib.
-From C03 Require Import Model.
+From C03 Require Import Model ModelBytes.
 From Coq Require Import ZArith.
 
 Definition lN_eqb := list_eqb N.eqb.
@@ -26,6 +26,42 @@ Definition tentry_eqb (a b : tentry) : bool :=
   && N.eqb (te_blk a) (te_blk b).
 Fixpoint N_seq (start : N) (len : nat) : list N :=
   match len with 0 => [] | S k => start :: N_seq (start + 1) k end.
+
+
+(* ---------------------------------------------------------------- byte-level helpers *)
+Definition dres_eqb {A} (eqb : A -> A -> bool) (a b : dres A) : bool :=
+  match a, b with
+  | DOk x, DOk y => eqb x y
+  | DErr, DErr => true
+  | DPanic, DPanic => true
+  | _, _ => false
+  end.
+Definition dmap {A B} (f : A -> B) (r : dres A) : dres B :=
+  match r with DOk a => DOk (f a) | DErr => DErr | DPanic => DPanic | DFuel => DFuel end.
+Definition pair_eqb {A B} (ea : A -> A -> bool) (eb : B -> B -> bool) (a b : A * B) : bool :=
+  ea (fst a) (fst b) && eb (snd a) (snd b).
+Definition zn_eqb := pair_eqb Z.eqb Nat.eqb.
+Definition rest_len {A} (r : dres (A * list N)) : dres (A * nat) := dmap (fun p => (fst p, length (snd p))) r.
+Definition pos_eqb (a b : N * N * list N) : bool :=
+  N.eqb (fst (fst a)) (fst (fst b)) && N.eqb (snd (fst a)) (snd (fst b)) && lN_eqb (snd a) (snd b).
+Definition lentry_eqb (a b : lentry) : bool :=
+  let '(t1, c1, s1, b1, m1) := a in let '(t2, c2, s2, b2, m2) := b in
+  N.eqb t1 t2 && N.eqb c1 c2 && N.eqb s1 s2 && N.eqb b1 b2 && lN_eqb m1 m2.
+Definition lfield_eqb (a b : lfield) : bool :=
+  let '(n1, m1, e1) := a in let '(n2, m2, e2) := b in lN_eqb n1 n2 && lN_eqb m1 m2 && list_eqb lentry_eqb e1 e2.
+Definition hdrb_eqb (a b : hdrb) : bool :=
+  N.eqb (hb_codec a) (hb_codec b) && N.eqb (hb_len a) (hb_len b) && N.eqb (hb_rawlen a) (hb_rawlen b)
+  && N.eqb (hb_ext1 a) (hb_ext1 b) && N.eqb (hb_ext2 a) (hb_ext2 b) && N.eqb (hb_pos a) (hb_pos b).
+Definition hdr_eqb (a b : hdr) : bool :=
+  N.eqb (fst (fst a)) (fst (fst b)) && N.eqb (snd (fst a)) (snd (fst b)) && N.eqb (snd a) (snd b).
+Definition is_ok {A} (r : dres A) : bool := match r with DOk _ => true | _ => false end.
+Definition ok_or_err {A} (r : dres A) : bool := match r with DOk _ | DErr => true | _ => false end.
+Definition i64b (v : Z) : bool := ((-9223372036854775808 <=? v) && (v <? 9223372036854775808))%Z.
+Definition unpack_ids_fmt (fmt : N) (buf : list N) : dres (list N) :=
+  if (fmt =? 0)%N then unpack_ids_varint buf else if (fmt =? 1)%N then unpack_rids 1 buf else unpack_rids 0 buf.
+Definition tok_get (payload : list N) (offs : dres (list N)) (k : N) : dres (list N) :=
+  match offs with DOk o => get_val payload o k | _ => DPanic end.
+Definition hdr3c (h : hdrb) : hdr := (hb_len h, hb_ext1 h, hb_ext2 h).
 
 (* one read of a posting list: tid, [lo,hi], direction, what the real iterator returned *)
 Record query := mkQ { q_tid : N; q_lo : N; q_hi : N; q_asc : bool; q_impl : res (list N) }.
@@ -53,6 +89,38 @@ Inductive case :=
    (StartTID, ValCount, StartIndex, BlockIndex) kept by sealing / read from the file; vals_* = for every TID
    1..N the token found by GetEntryByTID + GetValByTID, as its TID (None = panic or nothing) *)
 | CTokTab (fields : list (list N)) (pre loaded : list tentry) (vals_pre vals_loaded : list (option N))
+(* ---- byte-level codecs (ModelBytes.v); "dec"/"out" are what the REAL decoder did: value / error / panic ---- *)
+(* BytesPacker.PutVarint x -> enc; BytesUnpacker.GetVarint on enc ++ tail -> (value, Len() afterwards) *)
+| CVarint (x : Z) (enc tail : list N) (dec : dres (Z * nat))
+(* GetVarint on arbitrary (malformed / truncated) bytes *)
+| CVarintDec (buf : list N) (dec : dres (Z * nat))
+(* PutUint32 (w = 4) / PutUint64 (w = 8) of x; back = LittleEndian read of the real bytes *)
+| CFixed (w : nat) (x : N) (enc : list N)
+(* GetUint32 and GetBinary on arbitrary bytes: (value, Len() afterwards) *)
+| CGetBin (buf : list N) (u : dres (N * nat)) (b : dres (list N * nat))
+(* Chunks.Pack -> bytes; Chunks.unpack on those bytes *)
+| CChunksB (cs : list (list N)) (isLast : bool) (bytes : list N) (back : dres chunks)
+| CChunksDec (buf : list N) (out : dres chunks)
+(* one ID block: packMIDs / packRIDs / packPos bytes (br0 = the RIDs in the old varint format); dm dr dp = read back
+   from a real index file through loadMIDBlock/loadRIDBlock/loadParamsBlock + UnpackCache; dr0 = unpackRIDs(V0, br0) *)
+| CIdsB (mids rids pos : list N) (bm br bp br0 : list N) (dm dr dp dr0 : dres (list N))
+(* fmt 0: unpackMIDs, 1: unpackRIDs V1, 2: unpackRIDs V0 on arbitrary bytes *)
+| CIdsDec (fmt : N) (buf : list N) (out : dres (list N))
+(* DiskPositionsBlock.pack -> bytes; Loader.loadIDs on them (from a real file): IDBlocksTotal, IDsTotal, offsets *)
+| CPosB (total : N) (offs : list N) (bytes : list N) (dec : dres (N * N * list N))
+| CPosDec (buf : list N) (out : dres (N * N * list N))
+(* DiskTokensBlock.pack of every group into one packer -> bytes; Block.unpack -> offsets; GetValByTID at 0..n *)
+| CTokB (groups : list (list (list N))) (bytes : list N) (offs : dres (list N)) (vals : list (dres (list N)))
+(* Block.unpack on arbitrary bytes; when it succeeds GetValByTID at index k *)
+| CTokDec (buf : list N) (offs : dres (list N)) (k : N) (val : dres (list N))
+(* DiskTokenTableBlock.pack of every field -> bytes; TableLoader.load on a real file holding them *)
+| CTabB (fs : list (list N * list tentryb)) (bytes : list N) (dec : dres (list lfield))
+| CTabDec (buf : list N) (out : dres (list lfield))
+(* index block header built with the real setters: bytes, and what the six real accessors return *)
+| CHdr (h : hdrb) (bytes : list N) (got : hdrb)
+(* registry written by a real BlocksWriter (hs = what it must hold), read through IndexReader.GetBlockHeader:
+   seen = (Len, Ext1, Ext2) of headers 0..n-1, beyond = GetBlockHeader(n) *)
+| CReg (hs : list hdrb) (reg : list N) (seen : list hdr) (beyond : dres (list N))
 (* one request sent to the three forms of one fraction + brute-force oracle; canonical answers *)
 | CForm (kind : N) (active sealed reloaded oracle : list N).
 
@@ -96,6 +164,37 @@ Definition case_agrees (c : case) : bool :=
           && list_eqb (option_eqb lN_eqb) (map (fetch_doc pa oa fa) ids) got_a
       | _ => false
       end
+  | CVarint x enc tail dec =>
+      lN_eqb (put_varint x) enc && dres_eqb zn_eqb (rest_len (get_varint (enc ++ tail))) dec
+  | CVarintDec buf dec => dres_eqb zn_eqb (rest_len (get_varint buf)) dec
+  | CFixed w x enc => lN_eqb (put_le w x) enc
+  | CGetBin buf u b =>
+      dres_eqb (pair_eqb N.eqb Nat.eqb) (rest_len (get_u32 buf)) u
+      && dres_eqb (pair_eqb lN_eqb Nat.eqb) (rest_len (get_bin buf)) b
+  | CChunksB cs isLast bytes back =>
+      lN_eqb (pack_bytes (mkChunks cs isLast)) bytes && dres_eqb chunks_eqb (unpack_bytes bytes) back
+  | CChunksDec buf out => dres_eqb chunks_eqb (unpack_bytes buf) out
+  | CIdsB mids rids pos bm br bp br0 dm dr dp dr0 =>
+      lN_eqb (pack_mids mids) bm && lN_eqb (pack_rids rids) br && lN_eqb (pack_pos pos) bp && lN_eqb (pack_mids rids) br0
+      && dres_eqb lN_eqb (unpack_ids_varint bm) dm && dres_eqb lN_eqb (unpack_rids 1 br) dr
+      && dres_eqb lN_eqb (unpack_ids_varint bp) dp && dres_eqb lN_eqb (unpack_rids 0 br0) dr0
+  | CIdsDec fmt buf out => dres_eqb lN_eqb (unpack_ids_fmt fmt buf) out
+  | CPosB total offs bytes dec =>
+      lN_eqb (pack_positions total offs) bytes && dres_eqb pos_eqb (load_positions bytes) dec
+  | CPosDec buf out => dres_eqb pos_eqb (load_positions buf) out
+  | CTokB groups bytes offs vals =>
+      lN_eqb (pack_phys groups) bytes && dres_eqb lN_eqb (blk_unpack bytes) offs
+      && list_eqb (dres_eqb lN_eqb) (map (tok_get bytes (blk_unpack bytes)) (N_seq 0 (length vals))) vals
+  | CTokDec buf offs k val =>
+      dres_eqb lN_eqb (blk_unpack buf) offs
+      && (if is_ok offs then dres_eqb lN_eqb (tok_get buf (blk_unpack buf) k) val else true)
+  | CTabB fs bytes dec =>
+      lN_eqb (pack_table fs) bytes && dres_eqb (list_eqb lfield_eqb) (load_table bytes) dec
+  | CTabDec buf out => dres_eqb (list_eqb lfield_eqb) (load_table buf) out
+  | CHdr h bytes got => lN_eqb (pack_hdr h) bytes && hdrb_eqb (unpack_hdr bytes) got
+  | CReg hs reg seen beyond =>
+      lN_eqb (pack_registry hs) reg && list_eqb hdr_eqb (read_registry reg) seen
+      && dres_eqb lN_eqb (get_header reg (length hs)) beyond
   | CForm _ _ _ _ _ => true
   end.
 
@@ -177,6 +276,34 @@ Definition case_spec_ok (c : case) : bool :=
       && forallb (fun x => let '(id, (a, (s, t))) := x in
                            sid_eqb id sid0 || (option_eqb lN_eqb a (Some t) && option_eqb lN_eqb s (Some t)))
                  (combine ids (combine got_a (combine got_s truth)))
+  (* ---- byte-level codecs: decode(REAL bytes) = original, evaluated on the implementation's outputs only ---- *)
+  | CVarint x _ tail dec => dres_eqb zn_eqb dec (DOk (x, length tail))
+  | CVarintDec buf dec =>
+      match dec with
+      | DOk (v, n) => i64b v && (n <? length buf) && (length buf <=? n + 10)
+      | DErr => true
+      | _ => false                                 (* GetVarint never panics *)
+      end
+  | CFixed w x enc => (length enc =? w) && N.eqb (get_le w enc) x
+  | CGetBin buf u b =>
+      match u with DOk (_, n) => n + 4 =? length buf | DPanic => length buf <? 4 | _ => false end
+      && match b with DOk (s, n) => n + 4 + length s =? length buf | DPanic => true | _ => false end
+  | CChunksB cs isLast _ back => dres_eqb chunks_eqb back (DOk (mkChunks cs isLast))
+  | CChunksDec _ out => ok_or_err out             (* Chunks.unpack never panics *)
+  | CIdsB mids rids pos _ _ _ _ dm dr dp dr0 =>
+      dres_eqb lN_eqb dm (DOk mids) && dres_eqb lN_eqb dr (DOk rids) && dres_eqb lN_eqb dp (DOk pos)
+      && dres_eqb lN_eqb dr0 (DOk rids)
+  | CIdsDec _ _ out => match out with DOk _ | DPanic => true | _ => false end
+  | CPosB total offs _ dec => dres_eqb pos_eqb dec (DOk (N.of_nat (length offs), total, offs))
+  | CPosDec _ out => match out with DFuel => false | _ => true end
+  | CTokB groups _ offs vals =>
+      is_ok offs && (length vals =? S (length (concat groups)))
+      && list_eqb (dres_eqb lN_eqb) (firstn (length (concat groups)) vals) (map DOk (concat groups))
+  | CTokDec _ offs _ _ => match offs with DFuel => false | _ => true end
+  | CTabB fs _ dec => dres_eqb (list_eqb lfield_eqb) dec (DOk (map lfield_of fs))
+  | CTabDec _ out => match out with DOk _ | DPanic => true | _ => false end
+  | CHdr h _ got => hdrb_eqb got h
+  | CReg hs _ seen beyond => list_eqb hdr_eqb seen (map hdr3c hs) && dres_eqb lN_eqb beyond DErr
   | CForm _ a s r o => all_eq4 a s r o
   end.
 
